@@ -101,6 +101,11 @@ def t_sort_last_desc(f):
 
 def t_take_n(f):
     need(f.ordered)
+    return [Take(1)]
+
+
+def t_take_2(f):
+    need(f.ordered)
     return [Take(2)]
 
 
@@ -188,7 +193,7 @@ ALPHABET = {
     "derive_add": t_derive_add, "derive_mix": t_derive_mix,
     "filter_gt": t_filter_gt, "filter_last": t_filter_last, "filter_null": t_filter_null,
     "sort_asc": t_sort_asc, "sort_desc2": t_sort_desc2, "sort_last_desc": t_sort_last_desc,
-    "take_n": t_take_n, "take_range": t_take_range, "take_open": t_take_open,
+    "take_n": t_take_n, "take_2": t_take_2, "take_range": t_take_range, "take_open": t_take_open,
     "select_2": t_select_2, "select_comp": t_select_comp, "select_last": t_select_last,
     "agg": t_agg, "agg_minmax": t_agg_minmax, "group_agg": t_group_agg, "group_take": t_group_take,
     "group_rownum": t_group_rownum, "win_sum": t_win_sum, "rownum": t_rownum,
@@ -531,7 +536,7 @@ def family_c02(tier, seed):
 # ---------------------------------------------------------------- C03: ordered family
 def family_c03(tier, seed):
     """every pipeline (explicit-column head) that contains at least one sort, over the sort/take-centred alphabet"""
-    names = ["sort_asc", "sort_desc2", "sort_last_desc", "take_n", "take_range", "take_open", "select_2", "select_comp",
+    names = ["sort_asc", "sort_desc2", "sort_last_desc", "take_n", "take_2", "take_range", "take_open", "select_2", "select_comp",
              "select_last", "derive_add", "filter_gt", "filter_null", "join_inner", "join_left", "group_agg", "agg",
              "group_take", "rownum", "distinct"]
     out = []
@@ -648,6 +653,11 @@ def family_c04(tier, seed):
                                     Group(["a"], Derive(g=s()))]),
         ("x:two-windows", [From("t"), Select("a", "b"), Sort("a"), Window(Derive(w=s()), rolling=2), Window(Derive(v=Fn("max", b)), rows=(0, 1))]),
         ("x:win-after-split", [From("t"), Select("a", "b"), Sort("a"), Take(3), Derive(w=s()), Filter(w > b)]),
+        ("x:win-after-take1", [From("t"), Select("a", "b"), Sort("a"), Take(1), Derive(w=s())]),
+        ("x:win-after-take2", [From("t"), Select("a", "b"), Sort("-a"), Take(2), Derive(w=s(), r=Fn("rank", b))]),
+        ("x:win-filter-after-take1", [From("t"), Select("a", "b"), Sort("a"), Take(1), Filter(Fn("sum", b) > 0)]),
+        ("x:group-take-after-take1", [From("t"), Select("a", "b"), Sort("a"), Take(1, 2), Group(["a"], Sort("b"), Take(1))]),
+        ("x:win-after-take-range", [From("t"), Select("a", "b"), Sort("b"), Take(2, 2), Derive(n=Fn("count", b), m=Fn("max", a))]),
         ("x:win-after-agg", [From("t"), Group(["a"], Aggregate(sb=s())), Sort("a"), Derive(cum=Fn("sum", C("sb")))]),
         ("x:win-after-agg-exp", [From("t"), Group(["a"], Aggregate(sb=s())), Sort("a"), Window(Derive(cum=Fn("sum", C("sb"))), expanding=True)]),
         ("x:win-select", [From("t"), Sort("a"), Select("a", w=Fn("lag", 1, b))]),
@@ -692,6 +702,14 @@ def family_c05(tier, seed):
         ("p:join-sel-sub", [From("t"), Select("a", "b"), Join([From("u"), Select("a", "b")], "==a")]),
         ("p:join-sel-sub-alias", [From("t"), Select("a", "b"), Join([From("u"), Select("a", "b")], "==a", alias="w")]),
         ("p:join-derive", [From("t"), Select("a", "b"), Derive(x=a + 1), J()]),
+        ("p:join-excl-right", [From("t"), Select("a", "b"), Join([From("u"), Select("a", "b")], "==a"), SelectNot("u.a")]),
+        ("p:join-excl-left", [From("t"), Select("a", "b"), Join([From("u"), Select("a", "b")], "==a"), SelectNot("t.b")]),
+        ("p:join-excl-two", [From("t"), Select("a", "b", "c"), Join([From("u"), Select("a", "b")], "==a"), SelectNot("t.a", "u.b")]),
+        ("p:join-alias-excl", [From("t"), Select("a", "b"), Join([From("u"), Select("a", "b")], "==a", alias="w"), SelectNot("w.a")]),
+        ("p:join-known-group-take", [From("t"), Select("a", "b"), Join([From("u"), Select("a", "b")], "==a"), Group(["t.a"], Sort("u.b"), Take(1))]),
+        ("p:join-known-group-take-r", [From("t"), Select("a", "b"), Join([From("u"), Select("a", "b")], "==a"), Group(["u.b"], Sort("t.b"), Take(1))]),
+        ("p:join-let-excl", Prog([From("x"), Join("y", "==a"), SelectNot("y.a")], lets=[("x", [From("t"), Select("a", "b")]), ("y", [From("u"), Select("a", "b")])])),
+        ("p:join-lit-excl", [FromLit([{"a": 1, "k": 2}, {"a": 3, "k": 4}]), Join([From("u"), Select("a", "b")], "==a"), SelectNot("u.a")]),
         ("p:join-derive-after", [From("t"), Select("a", "b"), J(), Derive(x=C("t.a") + C("u.b"))]),
         ("p:join-filter-split", [From("t"), Select("a", "b"), J(), Derive(x=C("t.a") + 1), Filter(C("x") > 1)]),
         ("p:join-take-derive", [From("t"), Select("a", "b"), Sort("a"), J(), Take(3), Derive(x=C("u.b") + 1)]),
